@@ -228,6 +228,18 @@ def slice_block(rel, start_re, name=None, expect=1, which=0, open_ch='{'):
     return Slice(name or start_re, rel, text[m.start():e], text.count('\n', 0, m.start()) + 1, kind="block")
 
 
+def slice_region(rel, start_re, end_re, name=None):
+    """Verbatim text from the unique line matching start_re through the first later line matching end_re."""
+    text = read_repo(rel)
+    ms = list(re.finditer(start_re, text, re.M))
+    if len(ms) != 1:
+        raise Undecided("slice_region(%s, %r): expected 1 start, found %d" % (rel, start_re, len(ms)))
+    me = re.compile(end_re, re.M).search(text, ms[0].start())
+    if not me:
+        raise Undecided("slice_region(%s): end %r not found" % (rel, end_re))
+    return Slice(name or start_re, rel, text[ms[0].start():me.end()], text.count('\n', 0, ms[0].start()) + 1, kind="region")
+
+
 def body_of(func_text):
     """(header, body-without-outer-braces) of a function slice."""
     depth = [0]
